@@ -14,7 +14,8 @@ import math
 
 PID = "C34"
 LEVEL = "exploration"
-TECHNIQUE = "reference model (3 documented sentences) over generated segment templates and value recipes"
+TECHNIQUE = ("reference model (3 documented sentences) over generated segment templates and value recipes; "
+             "render / caller-mutation / render histories with value + container-identity comparison")
 RULE = ("case = (mode, template built from segments [data | {{ name }} | for-loop over a list | "
         "if-block | set | comment], value recipe): the model lists the runtime output pieces; "
         "1 non-string piece -> identity; else text=''.join(str(p)) -> ast.literal_eval(text) if it "
@@ -34,11 +35,23 @@ RULE = ("case = (mode, template built from segments [data | {{ name }} | for-loo
         "| self.v() in set / printed / from a child block] whose block body is one value or several "
         "pieces: the rule is applied to the block's output to get the value of super()/self.x() and "
         "again to the template's output. "
+        "Histories: one literal text holding >=1 list/dict/set (nested up to 3 levels, also inside a "
+        "tuple) rendered 5-8 times through 2-3 templates [text cut into data/variable pieces | one "
+        "string node | for-loop join | {{ super() }} of a block producing it | set a = self.w() of a "
+        "block producing it] x modes [the four above + two concurrent render_async in one event "
+        "loop] x [shared environment | a fresh environment]; after each rendering the caller "
+        "MODIFIES one reachable container of the value it got (append/extend/insert/setitem/pop/"
+        "clear, dict setitem/overwrite/pop/update/clear, set add/discard/clear; nested ones too); "
+        "every rendering must equal what an isolated first rendering returns (a new "
+        "ast.literal_eval of the text) and no list/dict/set reachable from it may be the same "
+        "object as one reachable from any earlier result. Within one rendering: self.w() / super() "
+        "referenced twice or in a loop and one of the values modified (4-row table x modes). "
         "distinct = distinct (mode, segment-kind sequence, value kinds, expected-result kind) with "
-        ">=1 variable segment")
+        ">=1 variable segment; histories: (value type, container types, (mode, route) sequence)")
 LEVEL_TEXT = ("held (modulo listed known findings) on K generated (template, data, mode) executions "
               "(segment templates, computed single nodes from custom filters/globals, block/extends/"
-              "super()/self.x() template sets) + a 45-row table of constant expressions against the documented three-"
+              "super()/self.x() template sets, render-mutate-render histories of one text across "
+              "templates, modes and environments) + a 45-row table of constant expressions against the documented three-"
               "sentence model; values cover ints/floats/bools/None/containers/custom objects/"
               "literal-looking strings; not all templates")
 ASSUMPTIONS = [
@@ -50,6 +63,11 @@ ASSUMPTIONS = [
     "a str-subclass / Markup single node is a string: the text rule applies to its text",
     "computed objects are compared by type and value (type-strict at every nesting level), objects "
     "handed in through render() by identity",
+    "the literal value of a text is a NEW object on every rendering (ast.literal_eval, which the "
+    "documentation names, builds new containers on every call): what a caller does to a list/dict/set "
+    "it got back never shows in, and is never shared with, the result of another rendering; history "
+    "templates get only strings/ints (and a list of strings) as data, so nothing handed in can be "
+    "legitimately shared",
 ]
 NSHARDS = {"quick": 16, "thorough": 16}
 BUDGET_S = {"quick": 20, "thorough": 300}
@@ -65,12 +83,28 @@ FLOORS = {
                            "producer_variable_input": 700, "producer_single_nonstring": 1300,
                            "producer_single_subclass_or_object": 700, "block_checks": 1400,
                            "block_super_checks": 500, "block_self_checks": 500,
-                           "block_reference_nonstring_output": 750}},
+                           "block_reference_nonstring_output": 750,
+                           # histories: count-bounded (45 cases per shard)
+                           "history_cases": 350, "history_renders": 1400,
+                           "history_renders_after_caller_mutation": 1200,
+                           "history_mutations": 1200, "history_nested_mutations": 350,
+                           "history_identity_checks": 2600, "history_after:same-template": 600,
+                           "history_after:other-template": 500,
+                           "history_after:other-environment": 1000, "history_sync_async_mix": 900,
+                           "history_mode:sync.render": 220, "history_mode:async.render_async": 220,
+                           "history_mode:async.render": 220, "history_mode:sandbox.render": 220,
+                           "history_mode:async.gather": 450, "history_route:cut": 500,
+                           "history_route:string-node": 190, "history_route:loop-join": 80,
+                           "history_route:block-super": 190, "history_route:block-self-set": 190,
+                           "history_within_render_checks": 12}},
     "thorough": {"evaluations": 350000, "distinct": 65000,
-                 "counters": {"identity_checks": 100000, "literal_results": 110000,
-                              "text_results": 130000, "mode:sync.render": 120000,
-                              "mode:async.render_async": 120000, "mode:async.render": 60000,
-                              "mode:sandbox.render": 60000, "const_expr_checks": 100,
+                 # time-boxed main loop: at load ~9x (load average 145 on 16 cores) a run gave
+                 # identity_checks 78.9k / literal_results 86.6k / text_results 103.8k /
+                 # mode:sync.render 109k, so these floors are half of the former (load ~6x) ones
+                 "counters": {"identity_checks": 50000, "literal_results": 55000,
+                              "text_results": 65000, "mode:sync.render": 60000,
+                              "mode:async.render_async": 60000, "mode:async.render": 30000,
+                              "mode:sandbox.render": 30000, "const_expr_checks": 100,
                               "builtin_producer_checks": 100,
                               # producers / blocks: 4000 cases per shard each (256k checks) when
                               # idle, time-boxed to 20% of the budget each (~70-100k at load ~6x)
@@ -78,7 +112,26 @@ FLOORS = {
                               "producer_variable_input": 6000, "producer_single_nonstring": 11000,
                               "producer_single_subclass_or_object": 6000, "block_checks": 20000,
                               "block_super_checks": 7000, "block_self_checks": 7000,
-                              "block_reference_nonstring_output": 10000}},
+                              "block_reference_nonstring_output": 10000,
+                              # histories: 600 cases per shard (9.6k cases / ~75k renders),
+                              # time-boxed to 6% of the budget
+                              "history_cases": 1900, "history_renders": 15400,
+                              "history_renders_after_caller_mutation": 13800,
+                              "history_mutations": 13800, "history_nested_mutations": 3900,
+                              "history_identity_checks": 27500,
+                              "history_after:same-template": 6600,
+                              "history_after:other-template": 5500,
+                              "history_after:other-environment": 11000,
+                              "history_sync_async_mix": 9900,
+                              "history_mode:sync.render": 2500,
+                              "history_mode:async.render_async": 2500,
+                              "history_mode:async.render": 2500,
+                              "history_mode:sandbox.render": 2500,
+                              "history_mode:async.gather": 5000, "history_route:cut": 5500,
+                              "history_route:string-node": 2200, "history_route:loop-join": 1000,
+                              "history_route:block-super": 2200,
+                              "history_route:block-self-set": 2200,
+                              "history_within_render_checks": 12}},
 }
 
 MODES = ["sync.render", "async.render_async", "async.render", "sandbox.render"]
@@ -903,6 +956,364 @@ def check_block_case(ctx, mode, case):
               "identity" if single else type(outs[0]).__name__, len(tops[0])))
 
 
+# ---------------------------------------------------------------- histories
+# One text, many renderings: the value a rendering returns belongs to the
+# caller, who may modify it; every later rendering (same template, another
+# template producing the same text, another mode, another environment) still
+# returns the literal value of ITS text as a new object.
+HIST_ROUTES = ["cut", "cut", "cut2", "string-node", "loop-join", "block-super", "block-self-set"]
+HIST_MODES = MODES + ["async.gather"]
+
+
+def gen_hist_value(r, depth=0, top=True):
+    """recipe of a literal value; the top level is (or holds) a list / dict / set."""
+    def scalar():
+        k = r.randrange(7)
+        if k == 0:
+            return ["str", r.choice(["a", "x y", "1", "", "é", "it's"])]
+        if k == 1:
+            return ["float", r.choice([1.5, -2.25, 0.0])]
+        if k == 2:
+            return r.choice([["bool", True], ["none"]])
+        return ["int", r.choice([0, 1, 2, 3, 7, 42, -5])]
+
+    def item():
+        if depth < 2 and r.random() < 0.35:
+            return gen_hist_value(r, depth + 1, False)
+        return scalar()
+
+    k = r.randrange(10) if not top else r.randrange(9)
+    if k <= 3:
+        return ["list", [item() for _ in range(r.randrange(0 if depth else 1, 4))]]
+    if k <= 5:
+        return ["dict", [[key, item()] for key in r.sample(["a", "b", "k 1", "tags"], r.randrange(1, 3))]]
+    if k == 6:
+        return ["set", [["int", i] for i in r.sample(range(6), r.randrange(1, 4))]]
+    if k <= 8:
+        # an immutable outside with a mutable inside
+        return ["tuple", [scalar(), ["list", [item() for _ in range(r.randrange(3))]]]
+                + ([["dict", [["k", item()]]]] if r.random() < 0.4 else [])]
+    return ["tuple", [scalar() for _ in range(r.randrange(3))]]
+
+
+def _cut(r, text, ncuts):
+    """text cut into data / variable pieces -> (segments, data)"""
+    data = {}
+    cuts = sorted(r.sample(range(len(text) + 1), min(len(text) + 1, ncuts)))
+    parts = [text[a:b] for a, b in zip([0] + cuts, cuts + [len(text)])]
+    segs = []
+    flip = r.randrange(2)
+    for j, part in enumerate(parts):
+        if not part:
+            continue
+        if (j + flip) % 2 or "{{" in part or "{%" in part or "{#" in part or part.endswith("{"):
+            n = f"p{len(data) + 1}"
+            if part.isdigit() and not (len(part) > 1 and part.startswith("0")) and r.random() < 0.7:
+                data[n] = ["int", int(part)]
+            else:
+                data[n] = ["str", part]
+            segs.append(["var", n, ""])
+        else:
+            segs.append(["data", part])
+    if not any(s[0] == "var" for s in segs):
+        segs.append(["var", "pe", ""])
+        data["pe"] = ["str", ""]
+    if len(segs) == 1:
+        segs.append(["comment"])
+    return segs, data
+
+
+def gen_hist_case(r):
+    recipe = gen_hist_value(r)
+    text = repr(make_value(recipe))
+    routes = []
+    for _ in range(r.randint(2, 3)):
+        route = r.choice(HIST_ROUTES)
+        if route == "loop-join" and recipe[0] != "list":
+            route = "cut"
+        if route in ("cut", "cut2"):
+            segs, data = _cut(r, text, r.randint(1, 3))
+            routes.append({"route": route, "segs": segs, "data": data})
+        elif route == "string-node":
+            routes.append({"route": route, "segs": [["var", "s", ""]], "data": {"s": ["str", text]}})
+        elif route == "loop-join":
+            routes.append({"route": route, "sep": r.choice([", ", ","])})
+        else:
+            segs, data = _cut(r, text, r.randint(1, 2))
+            routes.append({"route": route, "segs": segs, "data": data})
+    steps = []
+    for _ in range(r.randint(4, 7)):
+        steps.append({"t": r.randrange(len(routes)), "mode": r.choice(HIST_MODES),
+                      "fresh_env": r.random() < 0.2, "mutate": r.random() < 0.85,
+                      "mseed": r.randrange(10 ** 6)})
+    # at least one plain repetition of an earlier (template, mode) after a mutation
+    steps[0]["mutate"] = True
+    steps.append(dict(steps[0], fresh_env=False, mseed=r.randrange(10 ** 6)))
+    return {"recipe": recipe, "routes": routes, "steps": steps}
+
+
+def mutable_containers(v, out=None):
+    """every list / dict / set reachable from a result, in traversal order"""
+    out = [] if out is None else out
+    if isinstance(v, (list, dict, set)):
+        out.append(v)
+    if isinstance(v, (list, tuple)):
+        for x in v:
+            mutable_containers(x, out)
+    elif isinstance(v, dict):
+        for x in v.values():
+            mutable_containers(x, out)
+    return out
+
+
+def mutate_result(v, mseed):
+    """What a caller does with a value it owns: one visible modification of one reachable
+    container.  -> (container type name, operation, nested?) or None."""
+    import random
+
+    r = random.Random(mseed)
+    cs = mutable_containers(v)
+    if not cs:
+        return None
+    i = r.randrange(len(cs))
+    c = cs[i]
+    if isinstance(c, list):
+        op = r.choice(["append", "append", "extend", "setitem", "clear", "pop", "insert"])
+        if not c and op in ("setitem", "clear", "pop"):
+            op = "append"
+        if op == "append":
+            c.append(99)
+        elif op == "extend":
+            c.extend(["extra", [0]])
+        elif op == "setitem":
+            c[r.randrange(len(c))] = "changed"
+        elif op == "clear":
+            c.clear()
+        elif op == "pop":
+            c.pop()
+        else:
+            c.insert(0, None)
+    elif isinstance(c, dict):
+        op = r.choice(["setitem-new", "setitem-new", "overwrite", "clear", "pop", "update"])
+        if not c and op in ("overwrite", "clear", "pop"):
+            op = "setitem-new"
+        if op == "setitem-new":
+            c["added"] = True
+        elif op == "overwrite":
+            c[next(iter(c))] = "changed"
+        elif op == "clear":
+            c.clear()
+        elif op == "pop":
+            c.pop(next(iter(c)))
+        else:
+            c.update(zz=[1])
+    else:
+        op = r.choice(["add", "add", "discard", "clear"])
+        if not c and op != "add":
+            op = "add"
+        if op == "add":
+            c.add(777)
+        elif op == "discard":
+            c.discard(sorted(c)[0])
+        else:
+            c.clear()
+    return type(c).__name__, op, i > 0
+
+
+class _History:
+    """compiled templates of one history, per (route index, environment key, generation)"""
+
+    def __init__(self, case):
+        self.case = case
+        self.value = make_value(case["recipe"])
+        self.text = repr(self.value)
+        self.tpls = {}
+        self.envs = {}
+        self.gen = {}
+
+    def env(self, key, fresh, loader_templates, ti):
+        if fresh:
+            self.gen[key] = self.gen.get(key, 0) + 1
+        g = self.gen.get(key, 0)
+        k = (key, g, ti if loader_templates else None)
+        if k not in self.envs:
+            if loader_templates is None and g == 0:
+                self.envs[k] = get_env(key)
+            else:
+                from jinja2 import DictLoader
+
+                self.envs[k] = make_env(key, DictLoader(dict(loader_templates))
+                                        if loader_templates else None)
+        return self.envs[k], g
+
+    def template(self, ti, mode, fresh):
+        rt = self.case["routes"][ti]
+        key = mode.split(".")[0]
+        route = rt["route"]
+        values = {}
+        T = None
+        if route == "loop-join":
+            src = ("{% for x in xs %}{{ '[' if loop.first }}{{ x }}{{ '" + rt["sep"]
+                   + "' if not loop.last else ']' }}{% endfor %}")
+            values = {"xs": [repr(x) for x in self.value]}
+        else:
+            values = {k: make_value(v) for k, v in rt["data"].items()}
+            body, _flat = realize(rt["segs"], values)
+            if route == "block-super":
+                T = {"base": "{% block v %}" + body + "{% endblock %}",
+                     "main": "{% extends 'base' %}{% block v %}{{ super() }}{% endblock %}"}
+            elif route == "block-self-set":
+                T = {"main": "{% if false %}{% block w %}" + body + "{% endblock %}{% endif %}"
+                             "{% set a = self.w() %}{{ a }}"}
+            else:
+                src = body
+        env, g = self.env(key, fresh, T, ti)
+        ck = (ti, key, g)
+        if ck not in self.tpls:
+            self.tpls[ck] = env.get_template("main") if T else env.from_string(src)
+        return self.tpls[ck], values, (T or src), g
+
+
+def _hist_render(t, mode, values):
+    """-> list of results (two for async.gather)"""
+    if mode == "async.render_async":
+        return [asyncio.run(t.render_async(**values))]
+    if mode == "async.gather":
+        async def both():
+            return list(await asyncio.gather(t.render_async(**values), t.render_async(**values)))
+
+        return asyncio.run(both())
+    return [t.render(**values)]
+
+
+def check_history(ctx, case):
+    h = _History(case)
+    text = h.text
+    rec = {"kind": "history", "case": case}
+    ctx.count("history_cases")
+    earlier = []   # (result kept alive, step index, route index, env key, generation, mode)
+    seen = {}      # id(container) -> index into earlier
+    keep = []      # every container ever seen stays alive: ids are never reused
+    mutated = False
+    shape = []
+    for si, st in enumerate(case["steps"]):
+        mode = st["mode"]
+        ti = st["t"]
+        route = case["routes"][ti]["route"]
+        try:
+            t, values, src, g = h.template(ti, mode, st["fresh_env"])
+            results = _hist_render(t, mode, values)
+        except BaseException as e:  # noqa: BLE001
+            ctx.violation(f"history:raises:{type(e).__name__}:{route}",
+                          f"history over text {text!r}: step {si} ({mode}, route {route}) raised "
+                          f"{type(e).__name__}: {str(e)[:200]}", rec)
+            return
+        ekey = mode.split(".")[0]
+        for got in results:
+            ctx.ev()
+            ctx.count("history_renders")
+            ctx.count("history_mode:" + mode)
+            ctx.count("history_route:" + route)
+            want = ast.literal_eval(text)   # what an isolated first rendering returns
+            if mutated:
+                ctx.count("history_renders_after_caller_mutation")
+            # relation of this rendering to the earlier ones
+            rels = set()
+            for (_r, _si, eti, eenv, eg, emode) in earlier:
+                if eenv != ekey or eg != g:
+                    rels.add("other-environment")
+                elif eti == ti:
+                    rels.add("same-template")
+                else:
+                    rels.add("other-template")
+            for rel in rels:
+                ctx.count("history_after:" + rel)
+            if any(emode.startswith("async") != mode.startswith("async") for *_x, emode in earlier):
+                ctx.count("history_sync_async_mix")
+            cs = mutable_containers(got)
+            shared = None
+            for c in cs:
+                ctx.count("history_identity_checks")
+                if id(c) in seen and shared is None:
+                    shared = (c, earlier[seen[id(c)]])
+            ok = same(got, want)
+            if shared is not None:
+                c, (_r, esi, eti, eenv, eg, emode) = shared
+                rel = ("other-environment" if (eenv != ekey or eg != g) else
+                       "same-template" if eti == ti else "other-template")
+                ctx.violation(
+                    f"history:result-shares-container-with-earlier-result:{rel}:{type(c).__name__}",
+                    f"text {text!r}: step {si} ({mode}, route {route}, {src!r}) returned a value whose "
+                    f"{type(c).__name__} is the very object returned by step {esi} ({emode}, route "
+                    f"{case['routes'][eti]['route']}); current value {got!r}, literal value of the "
+                    f"text {want!r}", rec)
+            if not ok:
+                ctx.violation(
+                    f"history:literal-mismatch-after-caller-modified-earlier-result:{type(want).__name__}"
+                    if mutated else f"history:literal-mismatch:{type(want).__name__}",
+                    f"text {text!r}: step {si} ({mode}, route {route}, {src!r}) returned "
+                    f"{type(got).__name__} {got!r}, the literal value of its text is {want!r} "
+                    f"(earlier results had been modified by their caller: {mutated})", rec)
+            if shared is not None or not ok:
+                return
+            idx = len(earlier)
+            earlier.append((got, si, ti, ekey, g, mode))
+            keep.append(cs)
+            for c in cs:
+                seen[id(c)] = idx
+            if st["mutate"]:
+                m = mutate_result(got, st["mseed"] + idx)
+                if m is not None:
+                    mutated = True
+                    ctx.count("history_mutations")
+                    ctx.count("history_mutation:" + m[0] + "." + m[1])
+                    if m[2]:
+                        ctx.count("history_nested_mutations")
+        shape.append((mode, route))
+    ctx.dist(("history", type(h.value).__name__, [type(c).__name__ for c in
+                                                   mutable_containers(h.value)][:4], shape))
+
+
+# within ONE rendering: two references to the same block are two values
+WITHIN = [
+    ("self-twice", "{% if false %}{% block w %}[{{ x }}, 2]{% endblock %}{% endif %}"
+                   "{% set a = self.w() %}{% set b = self.w() %}{% set _ = a.append(9) %}{{ b }}",
+     None, [1, 2]),
+    ("self-twice-pair", "{% if false %}{% block w %}{'k': [{{ x }}]}{% endblock %}{% endif %}"
+                        "{% set a = self.w() %}{% set b = self.w() %}{% set _ = a['k'].append(9) %}"
+                        "{{ [a, b] }}", None, [{"k": [1, 9]}, {"k": [1]}]),
+    ("super-twice", "{% extends 'base' %}{% block v %}{% set a = super() %}{% set b = super() %}"
+                    "{% set _ = a.append(9) %}{{ b }}{% endblock %}",
+     "{% block v %}[{{ x }}, 2]{% endblock %}", [1, 2]),
+    ("self-in-loop", "{% if false %}{% block w %}[{{ x }}]{% endblock %}{% endif %}"
+                     "{% set ns = namespace(acc=[]) %}{% for i in range(3) %}{% set a = self.w() %}"
+                     "{% set _ = a.append(i) %}{% set _ = ns.acc.append(a) %}{% endfor %}{{ ns.acc }}",
+     None, [[1, 0], [1, 1], [1, 2]]),
+]
+
+
+def check_within(ctx, mode, i):
+    name, main, base, want = WITHIN[i]
+    T = {"main": main}
+    if base:
+        T["base"] = base
+    rec = {"kind": "within", "mode": mode, "index": i, "templates": T}
+    ctx.ev()
+    ctx.count("mode:" + mode)
+    ctx.count("history_within_render_checks")
+    try:
+        got = do_render(mode, "main", {"x": 1}, templates=T)
+    except BaseException as e:  # noqa: BLE001
+        ctx.violation(f"within-render:{name}:raises:{type(e).__name__}",
+                      f"{mode} of {T} raised {type(e).__name__}: {str(e)[:200]}", rec)
+        return
+    if not same(got, want):
+        ctx.violation(f"within-render:{name}:block-reference-values-not-independent",
+                      f"{mode}: {T} with x=1: every self.w() / super() is the literal value of the "
+                      f"block's text, expected {want!r}, got {got!r}", rec)
+    ctx.dist((mode, "within", name))
+
+
 # single-node constant expressions (value known without a model)
 CONST_EXPRS = [
     ("{{ 1 + 2 }}", "eq", 3), ("{{ [1, 2] }}", "eq", [1, 2]), ("{{ (1, 2) }}", "eq", (1, 2)),
@@ -982,6 +1393,22 @@ def run(ctx):
         idx += 1
         if ctx.mine(idx):
             check_builtin_producers(ctx, mode)
+    for mode in MODES:
+        for i in range(len(WITHIN)):
+            idx += 1
+            if ctx.mine(idx):
+                check_within(ctx, mode, i)
+    rng = ctx.rng("histories")
+    t0 = ctx.elapsed()
+    for i in range(45 if quick else 600):
+        case = gen_hist_case(rng)
+        check_history(ctx, case)
+        if i < 2:
+            ctx.sample({"history_text": repr(make_value(case["recipe"])), "routes": case["routes"],
+                        "steps": case["steps"]})
+        if not quick and ctx.elapsed() - t0 > ctx.budget_s * 0.06:
+            ctx.count("histories_timeboxed")
+            break
     rng = ctx.rng("producers")
     for i in range(110 if quick else 4000):
         case = gen_producer_case(rng)
@@ -1031,5 +1458,9 @@ def replay(ctx, case):
         check_builtin_producers(ctx, case["mode"])
     elif case["kind"] == "blocks":
         check_block_case(ctx, case["mode"], case["case"])
+    elif case["kind"] == "history":
+        check_history(ctx, case["case"])
+    elif case["kind"] == "within":
+        check_within(ctx, case["mode"], case["index"])
     else:
         check_case(ctx, case["mode"], case["case"])
